@@ -511,15 +511,6 @@ theorem cleanLoop_sublist (items : Dict) (done todo removed : List Rule) :
 theorem cleanNamespaces_sublist (l : List Rule) : (cleanNamespaces l).1.Sublist l := by
   simpa [cleanNamespaces] using cleanLoop_sublist (nsDict l) [] l []
 
-theorem removeId_sublist (i : Nat) (l : List Rule) : (removeId i l).Sublist l := by
-  induction l with
-  | nil => exact List.Sublist.refl _
-  | cons r rs ih =>
-    unfold removeId
-    split
-    · exact List.sublist_cons_self r rs
-    · exact List.Sublist.cons₂ r ih
-
 /-- **insertRule's hierarchy check keeps the order**, whatever the outcome (accepted, refused, raised half-way) -/
 theorem insertCore_topOK (st : St) (dict : Dict) (r : Rule) (idx : Nat) (inOrder clean track : Bool)
     (h : TopOK st.rules)
@@ -544,7 +535,7 @@ theorem insertCore_topOK (st : St) (dict : Dict) (r : Rule) (idx : Nat) (inOrder
         · have hsub := cleanNamespaces_sublist (pyInsert st.rules i r)
           dsimp only
           split
-          · exact topOK_sublist hins ((removeId_sublist _ _).trans hsub)
+          · exact h
           · split
             · show TopOK (adoptId r.id _)
               unfold TopOK; rw [kindsOf_adoptId]; exact topOK_sublist hins hsub
@@ -589,7 +580,7 @@ theorem insertCore_kinds (st : St) (dict : Dict) (r : Rule) (idx : Nat) (inOrder
         · have hsub := cleanNamespaces_sublist (pyInsert st.rules i r)
           dsimp only
           split
-          · exact hins i r rfl _ ((removeId_sublist _ _).trans hsub)
+          · intro k hk; exact Or.inr hk
           · split
             · intro k hk
               have : k ∈ kindsOf (adoptId r.id (cleanNamespaces (pyInsert st.rules i r)).1) := hk
@@ -1269,7 +1260,7 @@ theorem insertCore_kidsOK (st : St) (dict : Dict) (r : Rule) (idx : Nat) (inOrde
         · have hsub := cleanNamespaces_sublist (pyInsert st.rules i r)
           dsimp only
           split
-          · exact hins i r hr _ ((removeId_sublist _ _).trans hsub)
+          · exact hk
           · split
             · intro x hx
               obtain ⟨y, hy, ⟨h, _⟩ | ⟨h, _⟩⟩ := mem_adoptId (show x ∈ adoptId r.id _ from hx)
@@ -1320,53 +1311,16 @@ theorem insertCore_goneOK (st : St) (dict : Dict) (r : Rule) (idx : Nat) (inOrde
       · split
         · dsimp only
           split
-          · intro g hg'
-            rcases List.mem_append.mp hg' with h | h
-            · exact hrem i g h
-            · split at h
-              · have : g = r := by simpa using h
-                rw [this]; exact hr
-              · cases h
+          · exact hheld
           · split
             · exact hrem i
             · exact hrem i
         · exact hg
     · exact hg
 
-theorem removeId_no (i : Nat) (l : List Rule) (h : l.countP (fun x => decide (x.id = i)) ≤ 1) :
-    ∀ x ∈ removeId i l, x.id ≠ i := by
-  induction l with
-  | nil => intro x hx; cases hx
-  | cons r rs ih =>
-    unfold removeId
-    split
-    · rename_i hr
-      rw [List.countP_cons_of_pos (by simpa using hr)] at h
-      have h0 : rs.countP (fun x => decide (x.id = i)) = 0 := by omega
-      rw [List.countP_eq_zero] at h0
-      intro x hx
-      simpa using h0 x hx
-    · rename_i hr
-      rw [List.countP_cons_of_neg (by simpa using hr)] at h
-      intro x hx
-      rcases List.mem_cons.mp hx with hx | hx
-      · rw [hx]; exact hr
-      · exact ih h x hx
-
-theorem countP_pyInsert_fresh (l : List Rule) (i : Nat) (r : Rule) (hf : ∀ x ∈ l, x.id ≠ r.id) :
-    (pyInsert l i r).countP (fun x => decide (x.id = r.id)) = 1 := by
-  unfold pyInsert
-  rw [List.countP_append, List.countP_cons_of_pos (by simp)]
-  have h1 : (l.take i).countP (fun x => decide (x.id = r.id)) = 0 := by
-    rw [List.countP_eq_zero]; intro x hx; simpa using hf x (List.mem_of_mem_take hx)
-  have h2 : (l.drop i).countP (fun x => decide (x.id = r.id)) = 0 := by
-    rw [List.countP_eq_zero]; intro x hx; simpa using hf x (List.mem_of_mem_drop hx)
-  omega
-
-/-- live links after `insertCore` — also when the clean-up's `deleteRule` raised (the new rule is taken out again) -/
+/-- live links after `insertCore` — also when the clean-up's `deleteRule` raised (the old list is put back) -/
 theorem insertCore_linksOK (st : St) (dict : Dict) (r : Rule) (idx : Nat) (inOrder clean track : Bool)
-    (hl : ∀ x ∈ st.rules, x.linksOK none true = true) (hr : r.linksOK none false = true)
-    (hfresh : ∀ x ∈ st.rules, x.id ≠ r.id) :
+    (hl : ∀ x ∈ st.rules, x.linksOK none true = true) (hr : r.linksOK none false = true) :
     ∀ x ∈ (insertCore st dict r idx inOrder clean track).1.rules, x.linksOK none true = true := by
   have hins : ∀ i, ∀ x ∈ pyInsert st.rules i r.adopt, x.linksOK none true = true := by
     intro i x hx
@@ -1388,17 +1342,8 @@ theorem insertCore_linksOK (st : St) (dict : Dict) (r : Rule) (idx : Nat) (inOrd
         · have hsub := cleanNamespaces_sublist (pyInsert st.rules i r)
           dsimp only
           split
-          · -- the clean-up raised: the candidate is taken out, everything left was there before
-            intro x hx
-            have hx' : x ∈ removeId r.id (cleanNamespaces (pyInsert st.rules i r)).1 := hx
-            have hcount : (cleanNamespaces (pyInsert st.rules i r)).1.countP (fun x => decide (x.id = r.id)) ≤ 1 := by
-              have := hsub.countP_le (p := fun x => decide (x.id = r.id))
-              rw [countP_pyInsert_fresh _ _ _ hfresh] at this
-              exact this
-            have hne := removeId_no _ _ hcount x hx'
-            rcases mem_pyInsert (hsub.subset ((removeId_sublist _ _).subset hx')) with h' | h'
-            · rw [h'] at hne; exact absurd rfl hne
-            · exact hl x h'
+          · -- the clean-up raised: the old list is put back
+            exact hl
           · split
             · intro x hx
               obtain ⟨y, hy, ⟨h, hid⟩ | ⟨h, hid⟩⟩ := mem_adoptId (show x ∈ adoptId r.id _ from hx)
@@ -1445,7 +1390,7 @@ theorem insertCore_ids (st : St) (dict : Dict) (r : Rule) (idx : Nat) (inOrder c
         · have hsub := cleanNamespaces_sublist (pyInsert st.rules i r)
           dsimp only
           split
-          · exact hins i r rfl _ ((removeId_sublist _ _).trans hsub)
+          · intro x hx; exact Or.inr ⟨x, hx, rfl⟩
           · split
             · intro x hx
               obtain ⟨y, hy, ⟨h, _⟩ | ⟨h, _⟩⟩ := mem_adoptId (show x ∈ adoptId r.id _ from hx)
@@ -1492,7 +1437,7 @@ theorem insertCore_inv (st : St) (dict : Dict) (r : Rule) (idx : Nat) (inOrder c
     (hmerge : ¬ (track = true ∧ r.kind = .charset ∧ inOrder = true ∧ firstIs [.charset] (kindsOf st.rules) = true)) :
     Inv (insertCore st dict r idx inOrder clean track).1 := by
   refine ⟨insertCore_kidsOK st dict r idx inOrder clean track hk hrk,
-   insertCore_linksOK st dict r idx inOrder clean track hl hrl (fun x hx => Nat.ne_of_lt (hlt x hx)),
+   insertCore_linksOK st dict r idx inOrder clean track hl hrl,
    insertCore_goneOK st dict r idx inOrder clean track hl hg hrl (by
      intro ⟨ht, hm⟩; exact hmerge ⟨ht, (mergesCharset_iff st r.kind idx inOrder).mp hm⟩), ?_⟩
   intro x hx
@@ -1638,8 +1583,7 @@ theorem parseOne_accOK {raising : Bool} {p q : PSt} {s : Spec} (h : parseOne rai
     rw [h] at hx
     unfold pInsert at hx
     refine ⟨insertCore_kidsOK _ _ _ _ _ _ _ (fun y hy => (hp y hy).1) hk x hx,
-      insertCore_linksOK _ _ _ _ _ _ _ (fun y hy => (hp y hy).2.1) hl
-        (fun y hy => by rw [hid]; exact Nat.ne_of_lt (hp y hy).2.2) x hx, ?_⟩
+      insertCore_linksOK _ _ _ _ _ _ _ (fun y hy => (hp y hy).2.1) hl x hx, ?_⟩
     rcases insertCore_ids _ _ _ _ _ _ _ x hx with h' | ⟨y, hy, h'⟩
     · rw [h', hid]; exact hlt
     · rw [← h']; exact Nat.lt_trans (hp y hy).2.2 hlt
